@@ -366,7 +366,7 @@ func runC16(w *World, r *Report) {
 			})
 		}
 		if n < 2 {
-			undecidedf("C16.task-records-carry-options: only %d RetrieveTask literals found in option-taking functions", n)
+			r.Deferred = append(r.Deferred, fmt.Sprintf("C16.task-records-carry-options: only %d RetrieveTask literals found in option-taking functions", n))
 		}
 	}
 
@@ -498,7 +498,7 @@ func runC16(w *World, r *Report) {
 			})
 		}
 		if n < 3 {
-			undecidedf("C16.builder-result-used: only %d calls of by-value builders in the module", n)
+			r.Deferred = append(r.Deferred, fmt.Sprintf("C16.builder-result-used: only %d calls of by-value builders in the module", n))
 		}
 	}
 
@@ -860,7 +860,7 @@ func runC16(w *World, r *Report) {
 			r.Check(direct >= 2, "C16.pass-through-designation-refused", fmt.Sprintf("extractOption: refusal #%d for a pass-through node is entered from either test", n), ret.Pos(), fmt.Sprintf("%d tests lead straight to it", direct), "the refusal needs both reasons at once: a component option (WithChatModelOption) designated to a pass-through node, and callbacks designated to a path below one (NewNodePath(\"pt\", \"inner\")), are accepted without an error and silently dropped — an option addressed to a node that cannot take it must be an error")
 		})
 		if n == 0 {
-			undecidedf("C16.pass-through-designation-refused: no refusal under isPassthrough found in extractOption")
+			r.Deferred = append(r.Deferred, fmt.Sprintf("C16.pass-through-designation-refused: no refusal under isPassthrough found in extractOption"))
 		}
 	}
 
@@ -935,7 +935,7 @@ func runC16(w *World, r *Report) {
 			})
 		}
 		if n == 0 {
-			undecidedf("C16.concurrent-option-lists-clipped: no concurrent inner call with an option list found in flow/retriever")
+			r.Deferred = append(r.Deferred, fmt.Sprintf("C16.concurrent-option-lists-clipped: no concurrent inner call with an option list found in flow/retriever"))
 		}
 	}
 
